@@ -74,6 +74,11 @@ func shrinkW4C(raw json.RawMessage) []json.RawMessage {
 		c.CancelAtOp = 0
 		out = append(out, mustJSON(c))
 	}
+	if o.EarlyWrites {
+		c := clone()
+		c.EarlyWrites = false
+		out = append(out, mustJSON(c))
+	}
 	return out
 }
 
@@ -105,6 +110,9 @@ type w4cOps struct {
 	// CancelAtOp: the application is shut down right after this user operation (index+1; 0 = not used), in the same
 	// instant: the watcher is then somewhere in the middle of handling that operation's events
 	CancelAtOp int `json:"cancel_at_op,omitempty"`
+	// EarlyWrites: the user starts as soon as DetectDeviceConfigChanges has returned, without giving the watcher's
+	// goroutines a chance to run first: whatever is modified after the return has to be noticed
+	EarlyWrites bool `json:"early_writes,omitempty"`
 }
 
 func isToml(name string) bool { return strings.HasSuffix(strings.ToLower(name), ".toml") }
@@ -144,6 +152,15 @@ func genW4C(r *simrt.Rng) *w4cOps {
 	}
 	if o.CancelMs < 0 && r.Chance(0.35) {
 		o.CancelAtOp = 1 + r.Intn(len(o.Ops))
+	}
+	if !o.NoWatcher && r.Chance(0.25) {
+		o.EarlyWrites = true
+		// what comes first comes at once, and in half of these runs nothing else follows that could cover it
+		o.Ops[0].GapUs = 0
+		if r.Chance(0.5) {
+			o.Ops = o.Ops[:1]
+			o.CancelAtOp = 0
+		}
 	}
 	return o
 }
@@ -221,12 +238,29 @@ func runW4C19(t *testing.T, job *Job, seed uint64, rp *Replay) RunOut {
 		// the watcher is started from a task of its own, so that everything it starts can be told apart
 		var changes <-chan bool
 		hostID := ""
+		returned := false
 		simrt.Go("watcherhost", func() {
 			hostID = simrt.SelfID()
 			changes = config.DetectDeviceConfigChanges(ctx)
+			mu.Lock()
+			returned = true
+			mu.Unlock()
 		})
-		// let the watcher register its four directories
-		simrt.WaitIdle()
+		if ops.EarlyWrites {
+			// only until the call has returned: what its goroutines still have to do is their business
+			for {
+				mu.Lock()
+				r := returned
+				mu.Unlock()
+				if r {
+					break
+				}
+				simrt.Yield("h.wait")
+			}
+		} else {
+			// let the watcher register its four directories
+			simrt.WaitIdle()
+		}
 		consumerDone := false
 		shutDown := false
 		simrt.Go("consumer", func() {
@@ -562,6 +596,9 @@ func runW4C19(t *testing.T, job *Job, seed uint64, rp *Replay) RunOut {
 	}
 	if ops.Reload {
 		ro.Faults["reload_during_save"]++
+	}
+	if ops.EarlyWrites {
+		ro.Faults["write_right_after_the_watcher_call_returned"]++
 	}
 	if ops.ConsumerStops {
 		ro.Faults["consumer_stops_at_shutdown"]++
